@@ -131,6 +131,15 @@ where
 
         Path(path_states)
     }
+
+    /// Snapshot of the search tree: (state, parent index, recorded cost) per node.
+    #[cfg(oxmpl_verif)]
+    pub fn verif_tree(&self) -> Vec<(S, Option<usize>, f64)> {
+        self.tree
+            .iter()
+            .map(|n| (n.state.clone(), n.parent_index, 0.0))
+            .collect()
+    }
 }
 
 // The main implementation of the Planner trait for RRT.
@@ -158,9 +167,18 @@ where
             parent_index: None,
         };
         self.tree.push(start_node);
+        #[cfg(oxmpl_verif)]
+        crate::verif::emit(crate::verif::Event::Push {
+            tree: 0,
+            idx: 0,
+            parent: None,
+            cost: 0.0,
+        });
     }
 
     fn solve(&mut self, timeout: Duration) -> Result<Path<S>, PlanningError> {
+        #[cfg(oxmpl_verif)]
+        use crate::verif::Instant;
         // Ensure setup has been called.
         let pd = self
             .problem_def
@@ -223,6 +241,13 @@ where
                     parent_index: Some(nearest_node_index),
                 };
                 self.tree.push(new_node);
+                #[cfg(oxmpl_verif)]
+                crate::verif::emit(crate::verif::Event::Push {
+                    tree: 0,
+                    idx: self.tree.len() - 1,
+                    parent: Some(nearest_node_index),
+                    cost: 0.0,
+                });
 
                 // 7. Check if the new node satisfies the goal
                 if goal.is_satisfied(&q_new) {
